@@ -1094,8 +1094,19 @@ func main() {
 		fmt.Fprintln(os.Stderr, err)
 		os.Exit(2)
 	}
+	origArgs := append([]string{}, os.Args...)
 	if err := setup(); err != nil {
 		fmt.Fprintln(os.Stderr, "setup:", err)
+		// a port that another process took between probing and listening, a stalled start: try again in
+		// a fresh process image (the module system cannot be set up twice in one process)
+		if n, _ := strconv.Atoi(os.Getenv("X07_SETUP_TRY")); n < 3 {
+			tr.Close()
+			if cleanupDir != "" {
+				_ = os.RemoveAll(cleanupDir)
+			}
+			_ = os.Setenv("X07_SETUP_TRY", strconv.Itoa(n+1))
+			_ = syscall.Exec("/proc/self/exe", origArgs, os.Environ())
+		}
 		tr.EmitRaw(map[string]any{"e": "setup-failed", "h": skip, "what": err.Error()})
 		tr.Close()
 		os.Exit(0)
